@@ -227,6 +227,7 @@ type access struct {
 type acase struct {
 	remote             bool
 	load               bool // drive the case through caddy.Load instead of the hook
+	mayStop            bool // POST that can end at /stop: run with the exiting flag set
 	listen             string
 	ipc                string
 	originsNil         bool
@@ -714,9 +715,7 @@ func (c *acase) inDomain() string {
 			}
 		}
 	}
-	if c.method == "POST" && contains(chain, "/stop") {
-		return "bad-op" // the real /stop handler exits the process
-	}
+	c.mayStop = c.method == "POST" && contains(chain, "/stop")
 	return ""
 }
 
@@ -999,6 +998,11 @@ func (p *prop) serve(c *acase, h http.Handler) (o obs) {
 				panicked = true
 			}
 		}()
+		if c.mayStop {
+			// the real /stop handler calls exitProcess, which does nothing when the process is
+			// already marked as exiting: the handler is reached for real, the harness survives
+			defer caddy.VerifSetExiting(caddy.VerifSetExiting(true))
+		}
 		h.ServeHTTP(rec, req)
 	}()
 	o.hits, o.hitLog = hits, hitLog
